@@ -159,7 +159,25 @@ func (g *gen) next() []string {
 	g.seq++
 	tok := fmt.Sprintf("%s%d.", g.tag, g.seq)
 	n := g.r.Intn(nKeys)
-	switch g.r.Intn(6) {
+	// a token some earlier write of this generator used (it may or may not be in the data any more)
+	old := fmt.Sprintf("%s%d.", g.tag, 1+g.r.Intn(g.seq))
+	switch g.r.Intn(12) {
+	case 8:
+		return []string{"del", key("a", n)}
+	case 9:
+		return []string{"lpop", key("l", n)}
+	case 10:
+		return []string{"hdel", key("h", n), "f" + strconv.Itoa(g.r.Intn(3))}
+	case 11:
+		if g.r.Intn(2) == 0 {
+			return []string{"srem", key("s", n), old}
+		}
+		return []string{"zrem", key("z", n), old}
+	case 6:
+		// HyperLogLog: elements out of a small fixed universe (the write goes to an in-memory cache first)
+		return []string{"pfadd", key("p", n), "e" + strconv.Itoa(g.r.Intn(16))}
+	case 7:
+		return []string{"zadd", key("z", n), strconv.Itoa(g.r.Intn(50)), tok}
 	case 0:
 		return []string{"incr", key("i", n)}
 	case 1:
@@ -181,7 +199,18 @@ func dump(c *rconn) ([]string, error) {
 	to := 10 * time.Second
 	var out []string
 	typeCmd := map[string]string{"kv": "", "list": "l", "hash": "h", "set": "s"}
-	for _, ty := range []string{"kv", "list", "hash", "set"} {
+	// HyperLogLog keys are served from a write cache and are not listed by a scan until they are flushed:
+	// the known keys are asked for directly
+	for n := 0; n < nKeys; n++ {
+		v, isErr, err := c.do(to, "pfcount", key("p", n))
+		if err != nil {
+			return nil, err
+		}
+		if !isErr && v != ":0" {
+			out = append(out, fmt.Sprintf("P p%d %s", n, v))
+		}
+	}
+	for _, ty := range []string{"kv", "list", "hash", "set", "zset"} {
 		cursor := ""
 		for round := 0; round < 100; round++ {
 			v, isErr, err := c.do(to, "advscan", nsName+":t:"+cursor, ty, "count", "1000")
@@ -198,11 +227,20 @@ func dump(c *rconn) ([]string, error) {
 				var line string
 				switch ty {
 				case "kv":
+					if strings.HasPrefix(k, "p") {
+						continue // a flushed HyperLogLog key: reported through PFCOUNT above
+					}
 					g, _, err := c.do(to, "get", full)
 					if err != nil {
 						return nil, err
 					}
 					line = "K " + k + " " + g
+				case "zset":
+					g, _, err := c.do(to, "zrange", full, "0", "-1", "withscores")
+					if err != nil {
+						return nil, err
+					}
+					line = "Z " + k + " " + sortPairs(g)
 				case "list":
 					g, _, err := c.do(to, "lrange", full, "0", "-1")
 					if err != nil {
